@@ -150,7 +150,17 @@ func (o *oracles) finalC11(final snap) {
 		o.monObserve("x", tmp, v, false)
 		o.on["C11"] = saved
 		if fmt.Sprint(len(want.phs), bitsStr(want.pv), bitsStr(want.pc)) != fmt.Sprint(len(m.phs), bitsStr(m.pv), bitsStr(m.pc)) {
-			o.violate("C11", "consumer-content-differs:"+consumer, fmt.Sprintf("%s holds version %d of %d/%d with different content than the mirror's view of that version", consumer, m.version, v.Height, v.Round))
+			// Name the shape of the difference, so that a known finding does not hide a different one.
+			what := "votes"
+			if len(want.phs) != len(m.phs) {
+				what = "proposals"
+				for _, ph := range v.ProposedHeaders {
+					if len(ph.Signature) == 0 && !m.phs[string(ph.Signature)+"|"+string(ph.Header.Hash)] {
+						what = "unsigned-replayed-header-added-without-version-bump"
+					}
+				}
+			}
+			o.violate("C11", "consumer-content-differs:"+consumer+":"+what, fmt.Sprintf("%s holds version %d of %d/%d with different content than the mirror's view of that version", consumer, m.version, v.Height, v.Round))
 		}
 	}
 	cur("gossip", gm, &final.voting)
